@@ -150,3 +150,36 @@ Proof.
   repeat split; try (vm_compute; reflexivity).
   eexists _, _, _, _. vm_compute. repeat split; reflexivity.
 Qed.
+
+From LC Require Import Model.Utf8 Model.TrieCodec Proofs.TrieFileProofs Proofs.TrieLayout Proofs.TrieRoundtrip Proofs.TrieEntries Proofs.Utf8Inj Proofs.CliTrie.
+
+(* ---- down to the trie file (C11): the map level above IS what the trie back end holds ----
+   The records go to TrieBuilder::insert as (syllables, String, frequency): `entry_of`, the phrase as UTF-8 bytes
+   (char::encode_utf8 is injective: Proofs/Utf8Inj.v).  A record of the source is enumerated by the trie built from
+   the records exactly when the compiled map of the theorems above answers its key with its frequency - when it is
+   the last record of its (syllables, phrase) pair; and the trie enumerates nothing but records of the source. *)
+Theorem C20_the_trie_holds_the_compiled_map : forall rs, Forall rec_ok rs -> forall r, In r rs ->
+  (In (entry_of r) (tentries (build (map entry_of rs))) <->
+   sdict_lookup (compile_records rs) (srec_key r) = Some (sr_freq r)).
+Proof. exact trie_holds_the_compiled_map. Qed.
+Print Assumptions C20_the_trie_holds_the_compiled_map.
+
+(* ... and so does the FILE: written from the records (within the format's capacities), opened again, enumerated - what
+   `chewing-cli dump` prints one line each - it yields exactly the compiled map's records *)
+Theorem C20_compile_write_dump_through_the_trie_file : forall info rs bytes,
+  Forall rec_ok rs -> info_ok info -> root_ok (build (map entry_of rs)) ->
+  write info (build (map entry_of rs)) = Ok bytes ->
+  exists tr out, open bytes = Ok tr /\ entries tr = Ok out /\
+    (forall r, In r rs -> (In (entry_of r) out <-> sdict_lookup (compile_records rs) (srec_key r) = Some (sr_freq r))) /\
+    (forall e, In e out -> exists r, In r rs /\ e = entry_of r).
+Proof.
+  intros info rs bytes Hok Hi Hr Hw.
+  destruct (write_read info _ bytes Hi Hr Hw) as (tr & Ho & _ & _ & (out & He & Hp)).
+  exists tr, out. split; [exact Ho|]. split; [exact He|]. split.
+  - intros r Hin. rewrite <- (trie_holds_the_compiled_map rs Hok r Hin). split; intros H.
+    + eapply Permutation_in; [exact Hp | exact H].
+    + eapply Permutation_in; [apply Permutation_sym; exact Hp | exact H].
+  - intros e He'. apply (trie_holds_only_source_records rs). eapply Permutation_in; [exact Hp | exact He'].
+Qed.
+Print Assumptions C20_compile_write_dump_through_the_trie_file.
+
